@@ -269,6 +269,7 @@ def treeinfo_value_mods(doc, rng):
             S(s, "id", doc[s]["id"] + "-x", "variant.id-dash"); S(s, "type", "floppy", "variant.type"); S(s, "type", "layered-product", "variant.type")
             if "parent" in doc[s]:
                 S(s, "uid", doc[s]["uid"] + "x", "child-uid-misaligned")
+                S(s, "id", doc[s]["id"] + "x", "child-id-misaligned")
         if s.startswith("images-"):
             k = sorted(doc[s])[0]
             S(s, k, "/abs/" + k, "image-path-absolute")
